@@ -75,6 +75,17 @@ Definition scrape_ok (bounds : list f64) (must may : list f64) (c : cexpo) : boo
   side_between must may s z true (e_neg e) &&
   classic_between bounds must may (x_classic c) (e_count e).
 
+(* the strict placement rule (C04's law as a sandwich): values within the exposed zero threshold are in the zero
+   bucket, not in a regular bucket. It holds for the code as it is now (the widening merge absorbs late buckets at
+   or below the merged key); kept separate from scrape_ok, whose weaker rule is what Proofs/C05_proofs.v reasons about. *)
+Definition strict_ok (must may : list f64) (c : cexpo) : bool :=
+  let e := x c in
+  let s := e_schema e in
+  let z := e_zt e in
+  Z.leb (want_zero must z) (e_zc e) && Z.leb (e_zc e) (want_zero may z) &&
+  forallb (fun p => Z.leb (want_bucket must s z false (fst p)) (snd p) && Z.leb (snd p) (want_bucket may s z false (fst p))) (e_pos e) &&
+  forallb (fun p => Z.leb (want_bucket must s z true (fst p)) (snd p) && Z.leb (snd p) (want_bucket may s z true (fst p))) (e_neg e).
+
 Definition check (s : sx) : Z :=
   match s with
   | SL [SZ kind; bounds; obs; scr; final; SZ flags] =>
@@ -84,9 +95,10 @@ Definition check (s : sx) : Z :=
           let ok :=
             Z.eqb flags 0 &&
             forallb (fun sc => let '(e, a, b) := sc in
-               scrape_ok bounds (map (fun o => fst (fst o)) (filter (fun o => Z.leb (snd o) a) obs))
-                                (map (fun o => fst (fst o)) (filter (fun o => Z.ltb (snd (fst o)) b) obs)) e) scr &&
-            scrape_ok bounds all all final in
+               let must := map (fun o => fst (fst o)) (filter (fun o => Z.leb (snd o) a) obs) in
+               let may := map (fun o => fst (fst o)) (filter (fun o => Z.ltb (snd (fst o)) b) obs) in
+               scrape_ok bounds must may e && strict_ok must may e) scr &&
+            scrape_ok bounds all all final && strict_ok all all final in
           if ok then code_ok else code_spec_violation
       | _, _, _, _ => code_decode_error
       end
